@@ -690,15 +690,34 @@ impl Xot {
             let skip_default = self.namespace_for_name(self.get_element_name(clone))
                 == self.no_namespace();
             let empty_prefix = self.empty_prefix();
+            let mut skipped_default = None;
             let mut namespaces = self.namespaces_mut(clone);
             for (prefix, ns) in prefixes {
                 if namespaces.contains_key(prefix) {
                     continue;
                 }
                 if skip_default && prefix == empty_prefix {
+                    skipped_default = Some(ns);
                     continue;
                 }
                 namespaces.insert(prefix, ns);
+            }
+            // the default namespace that the top element cannot carry is
+            // declared by the outermost elements below it that are in it
+            if let Some(ns) = skipped_default {
+                let mut todo: Vec<Node> = self.children(clone).collect();
+                while let Some(descendant) = todo.pop() {
+                    if !self.is_element(descendant)
+                        || self.namespaces(descendant).contains_key(empty_prefix)
+                    {
+                        continue;
+                    }
+                    if self.namespace_for_name(self.get_element_name(descendant)) == ns {
+                        self.namespaces_mut(descendant).insert(empty_prefix, ns);
+                    } else {
+                        todo.extend(self.children(descendant));
+                    }
+                }
             }
         }
         clone
